@@ -7,8 +7,8 @@ ORACLE_MODULES = ['rt.oracles_eval', 'rt.oracles_contracts']
 BOUNDED = os.path.exists(os.path.join(os.path.dirname(__file__), '..', 'rt', 'bounded_C05.py'))
 FLOAT_MODEL = 'R; loggamma/log uninterpreted'
 TRUSTED = ['numpy.sum / scipy.special.loggamma element-wise', 'pyvc engine, z3 5.1']
-ASSUMPTIONS = ['likelihood_test (L-test, Poisson number of events) is proved at kernel level only (seeded case of _poisson_likelihood_test); its public wrapper and the -inf clause (model R has no infinities) are decided by the bounded stand-in', 'observed counts are whole numbers >= 0, rates >= 0 with positive total; floats as reals; log / loggamma uninterpreted']
+ASSUMPTIONS = ['likelihood_test (L-test, Poisson number of events): the seeded kernel case and the public wrapper (plumbing over the kernel contract) are proved; the -inf clause (model R has no infinities) is decided by the bounded stand-in and, for poisson_joint_log_likelihood_ndarray, by the directed replay of a -inf log-rate', 'observed counts are whole numbers >= 0, rates >= 0 with positive total; floats as reals; log / loggamma uninterpreted']
 EXPLANATION = '_poisson_likelihood_test (1-d and 2-d rates, normalised or not, injected numbers or seeded): observed statistic == sum over ALL bins of log Poisson pmf(count | rate) with the rates scaled to the observed number when normalised (support restriction justified by lemma L4_sum_over_selection and loggamma(1) = 0 pointwise); loop invariant: every entry of the simulated distribution is that same function of the catalog placed by exact inverse CDF from its row of random numbers; quantile == fraction <= observed, in [0,1]; the public CL / S / M tests hand the full rates / the spatial marginal / the magnitude marginal (with the forecast magnitude edges) to the kernel with the right normalisation flag and store its triple'
 TECHNIQUE = 'contracts on the real functions; loop invariant over the simulation loop; modular use of the simulator and kernel contracts; summation lemmas (L4) with pointwise proof steps; z3; bounded independent recomputation as labelled stand-in'
 LEVEL_TEXT = 'proof (model R): kernel, simulator and the public CL/S/M tests are executed symbolically for forecasts, catalogs and simulation counts of arbitrary size; the -inf clause is bounded only'
-LEVEL_NOTE = 'floats as reals; log/loggamma uninterpreted; numpy cumsum/searchsorted/add.at/mask selection assumed; lemma library; L-test wrapper and -inf clause bounded only'
+LEVEL_NOTE = 'floats as reals; log/loggamma uninterpreted; numpy cumsum/searchsorted/add.at/mask selection assumed; lemma library; -inf clause bounded only'
